@@ -159,17 +159,17 @@ var htsWriterCfg = writerCfg{pkg: "bgzf", writer: "Writer", comp: "compressor",
 	api: []string{"Write", "Flush", "Wait", "Close", "Next"}, closeMeth: "Close", magic: "magicBlock"}
 
 type writerModel struct {
-	c     *Ctx
-	cfg   writerCfg
-	names *protoNames
-	fns   []*ssa.Function
-	fOut  *types.Var
-	fErr  *types.Var
-	fCErr *types.Var
-	fCls  *types.Var
-	wb    *ssa.Function
-	latch *ssa.Function
-	getter *ssa.Function
+	c       *Ctx
+	cfg     writerCfg
+	names   *protoNames
+	fns     []*ssa.Function
+	fOut    *types.Var
+	fErr    *types.Var
+	fCErr   *types.Var
+	fCls    *types.Var
+	wb      *ssa.Function
+	latch   *ssa.Function
+	getter  *ssa.Function
 	emitter *ssa.Function // the literal that receives from queue
 	recvQ   *ssa.UnOp
 }
